@@ -66,6 +66,24 @@ func init() {
 		ruleNarrowArith(inDecoders, 2),
 	)
 
+	register("C07",
+		"Structural necessary conditions of line clipping: clip.LineString/MultiLineString/MultiPoint never write their input and their pieces do not alias it (points-to, all inputs); no certain fault for nil/empty/1..4-vertex lines with closed and open bounds (abstract interpretation); the segment loop visits every segment. The geometry of the result is NOT decided.",
+		ruleNoWrite("line clipping", lineClipEntries, 3, 8),
+		ruleFreshResult("line clipping", lineClipEntries, 3),
+		ruleShapeFaults(shapeConfig{label: "clip 0-d/1-d", keep: func(k string) bool {
+			return k == "clip.LineString" || k == "clip.MultiLineString" || k == "clip.MultiPoint" || k == "clip.Geometry"
+		}, floor: 4}),
+		ruleMemberLoops(func(k string) bool { return k == "clip.line" || k == "clip.MultiLineString" || k == "clip.MultiPoint" }, 2, 1),
+	)
+
+	register("C08",
+		"Structural necessary conditions of ring/polygon clipping: no certain fault for any kind x degenerate shape through every clip entry; clip.Geometry returns a nil interface for nil/empty input and never a typed nil inside a non-nil interface (abstract interpretation, shape-decided postconditions); member loops complete. Region preservation and area additivity are NOT decided.",
+		ruleShapeFaults(shapeConfig{label: "clip", keep: inPkgs("clip."), floor: 8,
+			post: rulePost("clip", append(typedNilPost("clip.Geometry"), emptyInNilOut("clip.Geometry")))}),
+		ruleMemberLoops(inPkgs("clip."), 6, 1),
+		ruleRunOnce(inPkgs("clip."), 10),
+	)
+
 	register("C10",
 		"Structural necessary conditions of 'planar measures equal their exact values': every segment loop visits every consecutive pair and every member loop every member (or reads the skipped prefix elsewhere). Numeric identities are NOT decided.",
 		ruleMemberLoops(inPkgs("planar.", "internal/length."), 14, 5),
@@ -87,6 +105,12 @@ func init() {
 		ruleRunOnce(inPkgs("geo.", "internal/length."), 8),
 	)
 
+	register("C11",
+		"Structural necessary conditions of 'the quadtree answers as a list would': no certain fault in any public method on a never-populated, one-point, two-level or emptied tree with boundary arguments (k in 0..3, buffers shorter/longer, nil/non-nil filter) - abstract interpretation. Answers after histories, pruning and ordering are NOT decided.",
+		ruleShapeFaults(shapeConfig{label: "quadtree API", keep: func(string) bool { return false }, extra: quadtreeAPI, floor: 9, override: quadtreeParams, post: rulePost("quadtree", quadtreePost)}),
+		ruleRejectBeforeWrite("quadtree.(*Quadtree).Add", "orb.(Bound).Contains"),
+	)
+
 	register("C12",
 		"Structural necessary conditions of the simplifier property: no certain fault for any kind x degenerate shape through every exported simplify entry (abstract interpretation); member loops cover every member. Error bound, idempotence, counts are NOT decided.",
 		ruleShapeFaults(shapeConfig{label: "simplify", keep: inPkgs("simplify."), floor: 21}),
@@ -101,7 +125,7 @@ func init() {
 
 	register("C17",
 		"Structural necessary conditions of resampling: no certain fault (negative make, index) for nil/empty/1..4-vertex lines x N in {-1,0,1,2,3,free} x free interval (abstract interpretation); the two distance loops visit every segment. Spacing and counts are NOT decided.",
-		ruleShapeFaults(shapeConfig{label: "resample", keep: inPkgs("resample."), floor: 2, override: resampleParams}),
+		ruleShapeFaults(shapeConfig{label: "resample", keep: inPkgs("resample."), floor: 2, override: resampleParams, post: rulePost("resample", resamplePost)}),
 		ruleMemberLoops(inPkgs("resample."), 1, 2),
 	)
 
@@ -148,4 +172,84 @@ func resampleParams(p *Program, fn *ssa.Function, par *ssa.Parameter) []argChoic
 		return intChoices("totalPoints", -1, 0, 1, 2, 3)
 	}
 	return nil
+}
+
+// quadtreeParams: receiver states and boundary arguments for the quadtree API.
+func quadtreeParams(p *Program, fn *ssa.Function, par *ssa.Parameter) []argChoice {
+	userPtr := func() AV { return IfaceV{User: true} }
+	nilChildren := func() AV {
+		return ArrV{N: 4, Elems: []AV{PtrV{Nil: true}, PtrV{Nil: true}, PtrV{Nil: true}, PtrV{Nil: true}}, Def: PtrV{Nil: true}}
+	}
+	node := func(it *Interp, s *State, val AV, child int, childNode AV) AV {
+		ch := nilChildren().(ArrV)
+		if child >= 0 {
+			ch.Elems[child] = childNode
+		}
+		return PtrV{Cell: it.newCell(s, StructV{Fields: []AV{val, ch}})}
+	}
+	tree := func(build func(it *Interp, s *State) AV) func(*Interp, *State) AV {
+		return func(it *Interp, s *State) AV {
+			bound := it.freeValue(s, p.Pkgs[orbPath].Types.Scope().Lookup("Bound").Type(), 0)
+			return PtrV{Cell: it.newCell(s, StructV{Fields: []AV{bound, build(it, s)}})}
+		}
+	}
+	switch {
+	case par.Name() == "q" && strings.HasSuffix(par.Type().String(), "quadtree.Quadtree"):
+		return []argChoice{
+			{"tree=never-populated", tree(func(*Interp, *State) AV { return PtrV{Nil: true} })},
+			{"tree=one-point", tree(func(it *Interp, s *State) AV { return node(it, s, userPtr(), -1, nil) })},
+			{"tree=root+child0", tree(func(it *Interp, s *State) AV { return node(it, s, userPtr(), 0, node(it, s, userPtr(), -1, nil)) })},
+			{"tree=root+child3", tree(func(it *Interp, s *State) AV { return node(it, s, userPtr(), 3, node(it, s, userPtr(), -1, nil)) })},
+			{"tree=emptied-root+child2", tree(func(it *Interp, s *State) AV {
+				return node(it, s, IfaceV{Nil: true}, 2, node(it, s, userPtr(), -1, nil))
+			})},
+			{"tree=emptied-root", tree(func(it *Interp, s *State) AV { return node(it, s, IfaceV{Nil: true}, -1, nil) })},
+		}
+	case par.Name() == "k":
+		return []argChoice{
+			{"k=0", func(*Interp, *State) AV { return intOf(0) }},
+			{"k=1", func(*Interp, *State) AV { return intOf(1) }},
+			{"k=2", func(*Interp, *State) AV { return intOf(2) }},
+			{"k=3", func(*Interp, *State) AV { return intOf(3) }},
+		}
+	case par.Name() == "maxDistance":
+		return []argChoice{
+			{"maxDistance=none", func(*Interp, *State) AV { return SliceV{Nil: true} }},
+			{"maxDistance=[d]", func(it *Interp, s *State) AV {
+				return SliceV{Arr: it.newCell(s, ArrV{N: 1, Elems: []AV{it.freeFloat()}, Def: FloatV{}}), Hi: 1, Cap: 1}
+			}},
+		}
+	case par.Name() == "buf":
+		mk := func(n, c int) func(it *Interp, s *State) AV {
+			return func(it *Interp, s *State) AV {
+				arr := ArrV{N: c, Elems: make([]AV, c), Def: IfaceV{Nil: true}}
+				for i := range arr.Elems {
+					arr.Elems[i] = IfaceV{Nil: true}
+				}
+				return SliceV{Arr: it.newCell(s, arr), Hi: n, Cap: c}
+			}
+		}
+		return []argChoice{
+			{"buf=nil", func(*Interp, *State) AV { return SliceV{Nil: true} }},
+			{"buf=len0cap0", mk(0, 0)},
+			{"buf=len1cap1", mk(1, 1)},
+			{"buf=len0cap4", mk(0, 4)},
+		}
+	case par.Name() == "f" || par.Name() == "eq":
+		return []argChoice{
+			{par.Name() + "=nil", func(*Interp, *State) AV { return FuncV{Nil: true} }},
+			{par.Name() + "=user", func(*Interp, *State) AV { return FuncV{User: true} }},
+		}
+	}
+	return nil
+}
+
+var quadtreeAPI = []string{
+	"quadtree.(*Quadtree).Add", "quadtree.(*Quadtree).Remove", "quadtree.(*Quadtree).Find", "quadtree.(*Quadtree).Matching",
+	"quadtree.(*Quadtree).KNearest", "quadtree.(*Quadtree).KNearestMatching", "quadtree.(*Quadtree).InBound",
+	"quadtree.(*Quadtree).InBoundMatching", "quadtree.(*Quadtree).Bound",
+}
+
+func lineClipEntries(c *Ctx) []effectEntry {
+	return []effectEntry{{key: "clip.LineString"}, {key: "clip.MultiLineString"}, {key: "clip.MultiPoint"}}
 }
